@@ -308,3 +308,6 @@ def run(ctx):
     ctx.run("C10.SURFACE", "R-FLOW", surface)
     ctx.run("C10.ESCAPABLE", "R-SIBLING", escapable)
     ctx.run("C10.WORKER", "R-ERRDISC", worker)
+    # the joblib side of healing: a failed call must leave no state that disables the next abort / re-arming
+    ctx.run("C04.RESET", "R-RESET", par.c04_reset)
+    ctx.run("C04.CLEANUP", "R-ORDER", par.c04_cleanup)
